@@ -1151,6 +1151,10 @@ func (c *contextWriter) Run(ctx context.Context, input []byte) ([]byte, error) {
 		return nil, err
 	}
 
+	if c.ctx == nil {
+		return nil, errors.New("context write requires a call context")
+	}
+
 	if err := types.SetAspectContext(ctx, c.ctx.from, string(key), value); err != nil {
 		return nil, err
 	}
